@@ -327,6 +327,9 @@ def sshclient(sim, secret):
     else:
         accept = POLICIES[polname][1]
         decided_by = "policy"
+    warmup = bool(sim.choose(2))
+    if warmup:
+        entries.append(("first.example.com", ssh.key(held)))
     tmp = tempfile.mkdtemp(prefix="verif-c17-")
     sim.cleanup.append(lambda: shutil.rmtree(tmp, ignore_errors=True))
     path = os.path.join(tmp, "known_hosts")
@@ -362,8 +365,25 @@ def sshclient(sim, secret):
     else:
         c.load_host_keys(path)
     c.set_missing_host_key_policy(POLICIES[polname][0]())
+    if warmup:
+        # an earlier, legitimate connection of the SAME client object to a known host that shows the
+        # same key (lookups must not leave state behind that makes the next name look known)
+        link0 = Link(sim)
+        t0 = Transport(link0.b)
+        t0._sim_name = "T-server0"
+        t0.add_server_key(ssh.key(held))
+        from sim.shims import Event as _Ev
+        t0.start_server(event=_Ev(), server=CredServer(sim, "other-secret", [ukey]))
+        try:
+            c.connect("first.example.com", 22, username="alice", password="other-secret", sock=link0.a,
+                      look_for_keys=False, allow_agent=False, timeout=30, banner_timeout=30, auth_timeout=30)
+            sim.probe("warmup_connection_ok")
+        except Exception as e:
+            raise RuntimeError("warm-up connection failed: %r" % (e,))
+        t0.close()
     desc = {"sub": "C", "known_hosts": shape, "hashed": hashed, "system_file": system_file, "port": port,
             "policy": polname, "credential": kind, "server_key": ktype, "reference": "accept" if accept else "reject",
+            "earlier_connection_to_known_host": warmup,
             "decided_by": decided_by}
     err = None
     try:
